@@ -16,6 +16,7 @@ import (
 	"io"
 	"net"
 	"sync"
+	"sync/atomic"
 	"time"
 )
 
@@ -23,11 +24,12 @@ type vxCConn struct {
 	in          chan []byte // peer -> client segments; a nil segment is the end-of-stream marker
 	dead        chan bool   // closed by the first local Close
 	once        sync.Once
+	closedFlag  uint32 // 1 after the first local Close (read without a scheduling point)
 	cur         []byte
 	eof         bool
 	wire        []byte // everything the library wrote
 	nwrites     int
-	nclose      int
+	nclose      int32
 	failWriteAt int         // a Write that would make len(wire) exceed this fails (<0: never)
 	hook        func()      // called (in the writer's goroutine) after every successful Write
 	onWrite     chan int    // alternatively: notification per Write for a peer goroutine
@@ -52,10 +54,8 @@ func (c *vxCConn) Read(p []byte) (int, error) {
 		if c.eof {
 			return 0, io.EOF
 		}
-		select {
-		case <-c.dead:
+		if c.isClosed() {
 			return 0, vxErrConnClosed
-		default:
 		}
 		select {
 		case seg := <-c.in:
@@ -74,14 +74,7 @@ func (c *vxCConn) Read(p []byte) (int, error) {
 	return n, nil
 }
 
-func (c *vxCConn) isClosed() bool {
-	select {
-	case <-c.dead:
-		return true
-	default:
-	}
-	return false
-}
+func (c *vxCConn) isClosed() bool { return atomic.LoadUint32(&c.closedFlag) != 0 }
 
 func (c *vxCConn) Write(p []byte) (int, error) {
 	if c.isClosed() {
@@ -102,8 +95,11 @@ func (c *vxCConn) Write(p []byte) (int, error) {
 }
 
 func (c *vxCConn) Close() error {
-	c.nclose++
-	c.once.Do(func() { close(c.dead) })
+	atomic.AddInt32(&c.nclose, 1)
+	c.once.Do(func() {
+		atomic.StoreUint32(&c.closedFlag, 1)
+		close(c.dead)
+	})
 	return nil
 }
 
@@ -130,11 +126,43 @@ func (c *vxCConn) pushCut(b []byte, cut int) {
 // hangup: the peer ends the stream; everything pushed before is still delivered.
 func (c *vxCConn) hangup() { c.in <- nil }
 
-func (c *vxCConn) LocalAddr() net.Addr                { return vxAddr{} }
-func (c *vxCConn) RemoteAddr() net.Addr               { return vxAddr{} }
+func (c *vxCConn) LocalAddr() net.Addr                { return vxCAddr{} }
+func (c *vxCConn) RemoteAddr() net.Addr               { return vxCAddr{} }
 func (c *vxCConn) SetDeadline(t time.Time) error      { return nil }
 func (c *vxCConn) SetReadDeadline(t time.Time) error  { return nil }
 func (c *vxCConn) SetWriteDeadline(t time.Time) error { return nil }
+
+// ---- an independent frame splitter (own copy: the client kit does not depend on the server-side kit files) ----
+
+type vxCAddr struct{}
+
+func (vxCAddr) Network() string { return "vx" }
+func (vxCAddr) String() string  { return "vxpeer" }
+
+type vxCFrame struct {
+	typ  uint8
+	tag  uint16
+	body []byte
+	raw  []byte
+}
+
+// vxCFrames splits a byte stream into frames by their size prefix; ok=false if the stream is malformed or ends
+// inside a frame (the complete frames before that point are still returned).
+func vxCFrames(b []byte) ([]vxCFrame, bool) {
+	var fs []vxCFrame
+	for len(b) > 0 {
+		if len(b) < 7 {
+			return fs, false
+		}
+		sz := int(uint32(b[0]) | uint32(b[1])<<8 | uint32(b[2])<<16 | uint32(b[3])<<24)
+		if sz < 7 || sz > len(b) {
+			return fs, false
+		}
+		fs = append(fs, vxCFrame{typ: b[4], tag: uint16(b[5]) | uint16(b[6])<<8, body: b[7:sz], raw: b[:sz]})
+		b = b[sz:]
+	}
+	return fs, true
+}
 
 // ---- client construction ----
 
@@ -143,7 +171,9 @@ func (c *vxCConn) SetWriteDeadline(t time.Time) error { return nil }
 // fields NewClnt sets, and starts the two service goroutines (the repository's own tests build Clnt literals too).
 func vxNewClient(nc net.Conn, msize uint32, dotu bool, ntags int) *Clnt {
 	if ntags <= 0 {
-		return NewClnt(nc, msize, dotu)
+		clnt := NewClnt(nc, msize, dotu)
+		vxQuiesce()
+		return clnt
 	}
 	clnt := &Clnt{
 		conn:    nc,
@@ -156,15 +186,20 @@ func vxNewClient(nc net.Conn, msize uint32, dotu bool, ntags int) *Clnt {
 		reqchan: make(chan *Req, 16),
 		tchan:   make(chan *Fcall, 16),
 	}
+	// Let each service goroutine reach its first wait before anything else happens: their start-up touches
+	// nothing shared (recv sizes its buffer from Msize and parks in Read, send parks in its select), so every
+	// later interleaving is still explored; only the irrelevant start-up permutations are not multiplied in.
 	go clnt.recv()
+	vxQuiesce()
 	go clnt.send()
+	vxQuiesce()
 	return clnt
 }
 
 // ---- scripted peer ----
 
 type vxPReq struct {
-	f        vxFrame
+	f        vxCFrame
 	idx      int  // arrival index
 	answered bool // a reply (of any kind) was pushed
 }
@@ -216,7 +251,7 @@ func (p *vxPeer) outstanding() int {
 
 // absorb splits newly written bytes into frames, checks tag distinctness, and lets the strategy react.
 func (p *vxPeer) absorb() {
-	fs, ok := vxFrames(p.nc.wire[p.seen:])
+	fs, ok := vxCFrames(p.nc.wire[p.seen:])
 	if !ok {
 		// the library writes one whole frame per Write, so a partial frame here is a library defect
 		p.badWire = true
@@ -479,10 +514,25 @@ func (p *vxPeer) findReq(fid uint32, from int) *vxPReq {
 	return nil
 }
 
-// vxAwaitCallers blocks the harness main goroutine until every caller reported on done; a caller that never
-// returns leaves main blocked with nothing runnable, which the engine reports as a HANG finding at this site.
-func vxAwaitCallers(done chan int, n int) {
-	for i := 0; i < n; i++ {
-		<-done
+// vxAwaitCallers: run everything until nothing can move, then require that every caller returned. Under the
+// engine a caller that is parked forever is turned into a HANG finding by parking the main goroutine at this site
+// (nothing is runnable any more, and the finding's message lists where every goroutine is parked); natively it is
+// an assertion failure.
+func vxAwaitCallers(cs []*vxCaller) bool {
+	vxQuiesce()
+	all := true
+	for _, c := range cs {
+		if !c.returned {
+			all = false
+		}
 	}
+	if !all {
+		if vxSymbolic() {
+			vxEvent("stuck: " + vxParkedDesc())
+			var never chan int
+			<-never
+		}
+		vxAssert(false, "every-call-returns")
+	}
+	return all
 }
